@@ -20,9 +20,14 @@ THEOREMS = [
     (P, 'EAO.C20.order_refines_full', 'full execution: the pairs attainable with the declared booleans in {0,1} are exactly those of the textbook book with every fraction in {0,1} (orders outside the horizon change neither flows nor cash)'),
     (P, 'EAO.C20.orderbook_composable', 'the order book meets the premises (WF, Local) of the composition theorems'),
     (P, 'EAO.C20.order_refines_portfolio', 'a portfolio containing the order book at any position among assets that refine their textbook semantics has the same upper bounds of its (relaxed) value set as the textbook portfolio with the per-order formulation; feasible points correspond both ways with equal flows'),
+    (P, 'EAO.C20.portfolio_refines_bool', 'boolean analogue of C02.portfolio_refines: for assets that are well-formed, local, with mapping rows in range and RefinesBool their semantics, the assembled MIP (Problem.Feasible, flags enforced) and the textbook portfolio match point by point and have the same upper bounds of their value sets'),
+    (P, 'EAO.C20.orderbook_mapInRange', 'every mapping row of the order book points at one of its variables'),
+    (P, 'EAO.C20.order_refinesBool', 'the full-execution order book refines (with its booleans enforced) the textbook book with every fraction in {0,1}'),
+    (P, 'EAO.C20.order_refines_portfolio_full', 'full execution at PORTFOLIO level: a portfolio containing a full-execution order book at any position among assets that RefinesBool their textbook semantics (they may carry booleans themselves) has the same optimum bounds as the textbook portfolio with one 0/1 execution variable per order; feasible points correspond both ways with equal flows'),
+    (P, 'EAO.C20.order_refines_portfolio_full_lp_others', 'corollary for other assets without boolean variables that Refines their semantics (all LP assets of C02)'),
     (P, 'EAO.C20.orderbook_wf', 'the built problem is well-formed (sizes, names, steps on the grid, row-less variables have zero cost)'),
 ]
-PARTIAL = ['order_refines_portfolio_full (full execution at PORTFOLIO level) is a stated target, not a theorem: the asset-local half is exact (order_refines_full, order_bools_portfolio), missing is the composition lemma for boolean flags across assets; at portfolio level the full-execution equality is checked by the independent enumeration reference of the oracle']
+PARTIAL = []
 COMPONENTS = ['orderbook builder vs OrderBook.setup_optim_problem', 'orderbook read-out (dispatch, DCF, special rows) vs io.extract_output']
 RULE = ('1-6 orders of 18 placement kinds (inside, straddling, outside before/after, off-grid, touching, zero-length, reversed), dates naive/strings/zone-aware, dict and DataFrame form, 13 grids incl. MS and DST days, 5 zones, wacc, NaN/length malformations; '
         'half of the cases embedded in a portfolio (market, sometimes storage) and optimised; non-trivial = some order executed / covering a step; distinct by case hash')
